@@ -318,6 +318,17 @@ func (m *Manager) downloadAll(deps []*chart.Dependency) error {
 			break
 		}
 
+		// The repository's credentials must not travel with a chart URL on
+		// another origin: the downloader scopes them to whichever configured
+		// repository lists that URL, which need not be this one.
+		if !passcredentialsall && (username != "" || password != "") {
+			ru, rerr := url.Parse(dep.Repository)
+			cu, cerr := url.Parse(churl)
+			if rerr != nil || cerr != nil || ru.Scheme != cu.Scheme || ru.Host != cu.Host {
+				username, password = "", ""
+			}
+		}
+
 		if _, ok := churls[churl]; ok {
 			fmt.Fprintf(m.Out, "Already downloaded %s from repo %s\n", dep.Name, dep.Repository)
 			continue
